@@ -32,7 +32,7 @@ ANCHORS = ['recursiveloader:ManifestRecursiveLoader.save_manifests',
            'manifest:ManifestFile.dump', 'compression:open_compressed_file',
            'cli:UpdateCommand.__call__']
 REQUIRED = ['recursiveloader:ManifestRecursiveLoader.save_manifests', 'idem_checked',
-            'canon_pairs_compared', 'cli_idem_checked']
+            'canon_pairs_compared', 'cli_idem_checked', 'same_loader_idem_checked']
 ASSUMPTIONS = ['forced rewrites (--force-rewrite) are excluded from the idempotence '
                'half: rewriting is what was asked for',
                'canonical half: at most one Manifest per directory, no Manifest aliased '
@@ -91,8 +91,9 @@ def judge_idem(ctx, root, case):
         ctx.unconstrained('several Manifest-named files in one directory / aliased '
                           'Manifest (U14/U15)')
         return
-    if mode == 'lib':
-        kind, val = c03.do_update(root, opt)
+    kept = []
+    if mode in ('lib', 'lib-same'):
+        kind, val = c03.do_update(root, opt, keep=kept)
         ok = kind == 'ok'
     else:
         rc = cli_update(root, opt, ['-t'] if mode == 'cli-t' else [])
@@ -105,16 +106,20 @@ def judge_idem(ctx, root, case):
     snap1 = manifest_snapshot(root)
     tsnap1 = gtree.snapshot(root)
     with audit.Recording(root) as rec:
-        if mode == 'lib':
+        if mode in ('lib', 'lib-same'):
             opt2 = dict(opt, wseed=opt['wseed'] + 1)
-            kind, val = c03.do_update(root, opt2)
+            # 'lib-same': the loader object of the first update does the second one
+            kind, val = c03.do_update(root, opt2, loader=kept[0] if mode == 'lib-same'
+                                      and kept else None)
             ok2 = kind == 'ok'
+            if mode == 'lib-same':
+                ctx.count('same_loader_idem_checked')
         else:
             rc = cli_update(root, opt, ['-t'] if mode == 'cli-t' else [])
             ok2 = rc == 0
             val = rc
     ctx.count('idem_checked')
-    if mode != 'lib':
+    if mode.startswith('cli'):
         ctx.count('cli_idem_checked')
     if not ok2:
         ctx.violation('second-update-fails:' + (adapt.exc_key(val) if isinstance(
@@ -253,7 +258,7 @@ def run_unit(u, ctx):
                    'format': rng.choice(['gz', 'bz2', 'lzma', 'xz']),
                    'wseed': rng.randrange(1 << 30)}
             case['opt'] = opt
-            case['mode'] = rng.choice(['lib', 'lib', 'cli', 'cli-t'])
+            case['mode'] = rng.choice(['lib', 'lib', 'cli', 'cli-t', 'lib-same'])
             case['replicas'] = [[rng.randrange(1 << 30), rng.randrange(1 << 30)]
                                 for _ in range(rng.choice([2, 3, 4]))]
             case['kind'] = 'c12'
